@@ -661,8 +661,15 @@ def c07_l(ctx):
              isinstance(s.value, ast.IfExp)]
     oks = False
     for s in seeds:
-        t = exr.raw(s.value.test)
-        b, o = exr.term(s.value.body), exr.term(s.value.orelse)
+        # the canonical conditional term (test positive, branches ordered accordingly)
+        ct = exr.raw(s.value)
+        if ct[0] != 'ifexp':
+            continue
+        t = ct[1]
+        full = exr.term(s.value)
+        b, o = (full[2], full[3]) if full[0] == 'ifexp' else (None, None)
+        if b is None:
+            continue
         if match(t, pattern('{} == 0'.format(sr.params[1]))) is not None:
             oks = b == pattern_term('self.seed') and contains(o, 'get_sub_seed(self.seed, _)')
         elif match(t, pattern('{} != 0'.format(sr.params[1]))) is not None or \
